@@ -82,8 +82,9 @@ def correspondence(ctx):
     tst, tdis = term_check.run(ctx.seed * 163 + 5, 150 if ctx.tier == "quick" else 2000, MODEL)
     sst, sdis = term_check.run_symbols(ctx.seed * 167 + 7, 150 if ctx.tier == "quick" else 1500, MODEL)
     cst, cdis = term_check.run_conv(ctx.seed * 173 + 9, 300 if ctx.tier == "quick" else 4000, MODEL)
-    dis += tdis + sdis + cdis
-    return {"interval_sequences": tot, "element_condition_programs": len(texts), "equations": eq, "terms": tst, "symbols": sst, "term_conversion": cst,
+    vst, vdis = term_check.run_vars(ctx.seed * 179 + 11, 300 if ctx.tier == "quick" else 4000, MODEL)
+    dis += tdis + sdis + cdis + vdis
+    return {"interval_sequences": tot, "element_condition_programs": len(texts), "equations": eq, "terms": tst, "symbols": sst, "term_conversion": cst, "head_variables": vst,
             "sample": {"program": texts[0]}}, dis
 
 # ---- schema vs instantiation
